@@ -382,7 +382,8 @@ func Run(r *fw.Run) {
 	// directories whose names are string prefixes of each other, in every order, with a collision on the
 	// shorter one (another case, or the same name as a file)
 	{
-		mini := []string{"tool-x/a.go", "tool.d/a.go", "toolbox/a.go", "tool/b.go", "Tool/c.go", "tool", "TOOL/sub/d.go", "tool/sub/e.go"}
+		mini := []string{"tool-x/a.go", "tool.d/a.go", "toolbox/a.go", "tool/b.go", "Tool/c.go", "tool", "TOOL/sub/d.go", "tool/sub/e.go",
+			"\u212a/ab", "\u212a/a", "k/ab", "d\u2126/a.go", "d\u03c9/b.go", "\u212a\u212a/x", "\u017f\u017f/y/z", "ss/y/w", "\u212b/q"}
 		for i := range mini {
 			for j := range mini {
 				if i == j {
